@@ -26,6 +26,7 @@ import EEM.Model.History
 import EEM.Model.HourlyPrep
 import EEM.Model.Refine
 import EEM.Model.Resample
+import EEM.Model.ResampleMin
 import EEM.Model.TempAgg
 import EEM.Model.Sufficiency
 import EEM.Model.Nondet
@@ -689,6 +690,8 @@ def opResample (args : List String) : String :=
         | "billing_monthly" => (reads.mapM parseReadingW).map fun rs => Model.Resample.billingDaily .monthly rs bs
         | "billing_bimonthly" => (reads.mapM parseReadingW).map fun rs => Model.Resample.billingDaily .bimonthly rs bs
         | "subdaily" => (reads.mapM parseReading).map fun rs => Model.Resample.subDaily rs bs
+        -- the same pipeline computed minute by minute, as `as_freq` does (EEM.Model.ResampleMin)
+        | "subdaily_min" => (reads.mapM parseReading).map fun rs => Model.ResampleMin.subDailyMin rs bs
         | _ => none
       match out with
       | some l => "ok " ++ " ".intercalate (l.map fun | some r => showRat r | none => "none")
